@@ -1061,7 +1061,31 @@ impl<'a> Walk<'a> {
                 v.extend(args.iter().map(|p| self.pat(*p)));
                 tagged("pconstr", v)
             }
-            hir::Pat::PStruct { .. } => self.bad("PStruct"),
+            hir::Pat::PStruct { name, fields } => {
+                // a struct pattern that names every field exactly once is a constructor pattern in declared field order
+                let tn = name.display();
+                if tn.contains("::") {
+                    return self.bad("PStruct-qualified");
+                }
+                let Some(def) = self.genv.current().structs().get(&TastIdent(tn.clone())) else { return self.bad("PStruct-unknown") };
+                let names: Vec<String> = def.fields.iter().map(|(f, _)| f.0.clone()).collect();
+                let mut ordered = Vec::new();
+                for nm in names.iter() {
+                    let hits: Vec<_> = fields.iter().filter(|(f, _)| f.to_ident_name() == *nm).collect();
+                    if hits.len() != 1 {
+                        return self.bad("PStruct-irregular");
+                    }
+                    ordered.push(hits[0].1);
+                }
+                if fields.len() != names.len() {
+                    return self.bad("PStruct-irregular");
+                }
+                let Some((_, cty)) = self.genv.current().lookup_constructor(&TastIdent(tn)) else { return self.bad("PStruct-unknown") };
+                self.kind("pat_struct");
+                let mut v = vec![tagged("ctor", vec![dump::ty(&cty), n(names.len())])];
+                v.extend(ordered.into_iter().map(|p| self.pat(p)));
+                tagged("pconstr", v)
+            }
             hir::Pat::PInt8 { value } => self.tint(&value, Ty::TInt8, -(1i128 << 7), (1i128 << 7) - 1),
             hir::Pat::PInt16 { value } => self.tint(&value, Ty::TInt16, -(1i128 << 15), (1i128 << 15) - 1),
             hir::Pat::PInt32 { value } => self.tint(&value, Ty::TInt32, -(1i128 << 31), (1i128 << 31) - 1),
@@ -1198,7 +1222,46 @@ impl<'a> Walk<'a> {
                 v.extend(args.iter().map(|e| self.expr(*e)));
                 tagged("constr", v)
             }
-            hir::Expr::EStructLiteral { .. } => self.bad("EStructLiteral"),
+            hir::Expr::EStructLiteral { name, fields } => {
+                let tn = name.display();
+                if tn.contains("::") {
+                    return self.bad("EStructLiteral-qualified");
+                }
+                let info = match self.genv.current().lookup_constructor(&TastIdent(tn.clone())) {
+                    None => None,
+                    Some((compiler::common::Constructor::Struct(sc), cty)) => {
+                        let Some(def) = self.genv.current().structs().get(&sc.type_name) else { return self.bad("EStructLiteral-irregular") };
+                        Some((cty, def.fields.iter().map(|(f, _)| f.0.clone()).collect::<Vec<String>>()))
+                    }
+                    Some(_) => return self.bad("EStructLiteral-enum"),
+                };
+                let mut v = vec![n(i)];
+                let mut idxs = vec![a("idxs")];
+                match &info {
+                    None => v.push(tagged("noctor", vec![])),
+                    Some((cty, names)) => {
+                        // every declared field written exactly once, nothing else
+                        if fields.len() != names.len() {
+                            return self.bad("EStructLiteral-irregular");
+                        }
+                        for (f, _) in fields.iter() {
+                            let nm = f.to_ident_name();
+                            let Some(k) = names.iter().position(|x| *x == nm) else { return self.bad("EStructLiteral-irregular") };
+                            if fields.iter().filter(|(g, _)| g.to_ident_name() == nm).count() != 1 {
+                                return self.bad("EStructLiteral-irregular");
+                            }
+                            idxs.push(n(k));
+                        }
+                        v.push(tagged("ctor", vec![dump::ty(cty), n(names.len())]));
+                    }
+                }
+                self.kind("struct_literal");
+                v.push(l(idxs));
+                if info.is_some() {
+                    v.extend(fields.iter().map(|(_, e)| self.expr(*e)));
+                }
+                tagged("slit", v)
+            }
             hir::Expr::EArray { items } => {
                 self.kind("array");
                 let mut v = vec![n(i)];
